@@ -61,6 +61,11 @@ type FuncVal struct{ fn *ssa.Function } // plain function value; nil func = Func
 
 type Tuple []Value
 
+type StrIter struct {
+	s   string
+	pos int
+}
+
 type MapIter struct {
 	m     *Map
 	order []*MapEntry // remaining entries snapshot
